@@ -282,6 +282,11 @@ class Resolver:
                 whole = self._res(value, d, depth + 1, stack, {})
                 if isinstance(whole, (ast.Tuple, ast.List)) and len(whole.elts) == len(target.elts):
                     return whole.elts[i]  # e.g. a helper call that was looked through
+                # a, b = t[k:]   ->   a = t[k], b = t[k + 1]   (for a non-negative constant start)
+                if isinstance(whole, ast.Subscript) and isinstance(whole.slice, ast.Slice) and whole.slice.step is None and (
+                        whole.slice.lower is None or (isinstance(whole.slice.lower, ast.Constant) and isinstance(whole.slice.lower.value, int) and whole.slice.lower.value >= 0)):
+                    lo = whole.slice.lower.value if whole.slice.lower is not None else 0
+                    return sym("unpack", whole.value, ast.Constant(value=lo + i))
                 return sym("unpack", whole, ast.Constant(value=i))
         return sym("def", ast.Constant(value=d))
 
